@@ -20,6 +20,10 @@ EXPLANATION = (
   "sites; (EXC-raise) the reader modules raise only documented input-error classes explicitly, the two tabled RuntimeErrors being "
   "unreachable (guarded call site / exhaustive state dispatch); (LINT-g) no attribute that is not a field of the namedtuple it is "
   "read from; (INV-nonempty) the invariant behind the single DEF exemption (SccCaptionLine._texts is never empty) holds."
+  " (NUL-optfield) optional fields of the style value types are tested for None before being dereferenced;"
+  " (IDX-lookahead) every subscript seq[i + k] has a dominating bound i + k < len(seq);"
+  " (ORD-compute) style processors called outside isd.py run after the processors whose results they assert on;"
+  " (STATE-alias / STATE-global) no function of the anchored modules mutates a module- or class-level container, rebinds module / class state or mutates a mutable default argument, so a result never depends on earlier calls;"
 )
 RULE_TEXT = "per function / class / dereference / extraction site / raise statement"
 UNDECIDED = ["termination", "RecursionError (input-depth recursion exists in from_xml, dfs_iterator, _process_element)", "TypeError / AssertionError guarded by data-dependent invariants",
